@@ -211,7 +211,7 @@ func vrnEntries(rng *rand.Rand, thorough bool) []vrnEntry {
 	q := strconv.QuoteToASCII
 	mult := 1
 	if thorough {
-		mult = 12
+		mult = 40
 	}
 
 	// ---- QR
